@@ -66,6 +66,10 @@ fn main() {
             let mut log = Log::to_path(&out);
             mg::gen_scenarios(seed, args.num("segments", 60) as usize, args.flag("stable"), &mut log);
         }
+        "mg-acyclic" => {
+            let mut log = Log::to_path(&out);
+            mg::gen_acyclic(seed, args.num("segments", 40) as usize, args.num("len", 60) as usize, &mut log);
+        }
         "mg-u8limit" => {
             let mut log = Log::to_path(&out);
             for d in [true, false] {
